@@ -72,9 +72,16 @@ func deepCopy(x any) any {
 
 func opts(df string) []func() { return nil }
 
+// sharedDF is one option value used by every goroutine (callers naturally build
+// their options once).
+var sharedDF = lucene.WithDefaultField("dflt")
+
 func parse(q, df string) (*expr.Expression, error) {
 	if df == "" {
 		return lucene.Parse(q)
+	}
+	if df == "dflt" {
+		return lucene.Parse(q, sharedDF)
 	}
 	return lucene.Parse(q, lucene.WithDefaultField(df))
 }
@@ -111,7 +118,7 @@ func (e *env) doOp(op int, in *input) (res string) {
 		if in.df == "" {
 			s, err = lucene.ToPostgres(in.query)
 		} else {
-			s, err = lucene.ToPostgres(in.query, lucene.WithDefaultField(in.df))
+			s, err = lucene.ToPostgres(in.query, sharedDF)
 		}
 		return s + " | " + errS(err)
 	case "toparam":
@@ -121,7 +128,7 @@ func (e *env) doOp(op int, in *input) (res string) {
 		if in.df == "" {
 			s, p, err = lucene.ToParameterizedPostgres(in.query)
 		} else {
-			s, p, err = lucene.ToParameterizedPostgres(in.query, lucene.WithDefaultField(in.df))
+			s, p, err = lucene.ToParameterizedPostgres(in.query, sharedDF)
 		}
 		return fmt.Sprintf("%s | %#v | %s", s, p, errS(err))
 	}
